@@ -7,6 +7,7 @@ import (
 	"math/rand"
 	"os"
 	"path/filepath"
+	"sync/atomic"
 	"time"
 
 	"github.com/btcsuite/btcd/btcutil"
@@ -38,19 +39,20 @@ var (
 )
 
 type H struct {
-	Dir      string
-	Path     string
-	Params   *chaincfg.Params
-	Seed     []byte
-	Root     *hdkeychain.ExtendedKey
-	Chain    *fakechain.Chain
-	Inner    walletdb.DB
-	DB       *vdb.DB
-	W        *wallet.Wallet
-	PubPass  []byte
-	PrivPass []byte
-	R        *rand.Rand
-	n        int
+	Dir       string
+	Path      string
+	Params    *chaincfg.Params
+	Seed      []byte
+	Root      *hdkeychain.ExtendedKey
+	Chain     *fakechain.Chain
+	Inner     walletdb.DB
+	DB        *vdb.DB
+	W         *wallet.Wallet
+	PubPass   []byte
+	PrivPass  []byte
+	R         *rand.Rand
+	n         int
+	abandoned int32
 }
 
 // Params returns regtest parameters with a short coinbase maturity.
@@ -112,11 +114,12 @@ func (h *H) Open(recoveryWindow uint32, unlock bool) error {
 var ErrNotSynced = fmt.Errorf("wallet did not reach ChainSynced within the watchdog")
 
 func (h *H) WaitSynced() error {
+	w := h.W
 	h.Chain.Barrier()
-	for i := 0; i < 60000 && !h.W.ChainSynced(); i++ {
+	for i := 0; i < 60000 && !w.ChainSynced() && atomic.LoadInt32(&h.abandoned) == 0; i++ {
 		time.Sleep(time.Millisecond)
 	}
-	if !h.W.ChainSynced() {
+	if !w.ChainSynced() {
 		return ErrNotSynced
 	}
 	h.Chain.Barrier()
@@ -135,7 +138,31 @@ func (h *H) Stop() {
 	h.Chain.NewSession()
 }
 
+// Abandon is called once a verdict about a wallet that never finishes
+// synchronising has been reached: pending waits return, and Close no longer
+// waits for the wallet's goroutines (they may be stuck in the very retry loop
+// that was reported).
+func (h *H) Abandon() {
+	atomic.StoreInt32(&h.abandoned, 1)
+	h.Chain.Shutdown()
+}
+
 func (h *H) Close() {
+	if atomic.LoadInt32(&h.abandoned) == 1 {
+		w := h.W
+		if w != nil {
+			done := make(chan struct{})
+			go func() { w.Stop(); w.WaitForShutdown(); close(done) }()
+			select {
+			case <-done:
+				h.Inner.Close()
+				os.Remove(h.Path)
+			case <-time.After(2 * time.Second):
+				// leave the database open: the stuck goroutines still use it
+			}
+			return
+		}
+	}
 	h.Stop()
 	h.Inner.Close()
 	os.Remove(h.Path)
